@@ -45,8 +45,10 @@ InitReplica(id) ==
      lastTO |-> 0, lastTOsi |-> [qc |-> -2, tc |-> -1, agg |-> -1, aggqcs |-> {}],
      lastProposed |-> 0, proposed |-> {},
      queue |-> <<>>,
-     out |-> <<>>, signed |-> <<>>, commits |-> <<>>, vcs |-> <<>>, miss |-> FALSE]
-ClearOutputs(s) == [s EXCEPT !.out = <<>>, !.signed = <<>>, !.commits = <<>>, !.vcs = <<>>, !.miss = FALSE]
+     timer |-> 0,                    \* the view the view timer is armed for (startTimeoutTimer), 0 before Synchronizer.Start
+     out |-> <<>>, signed |-> <<>>, commits |-> <<>>, vcs |-> <<>>, miss |-> FALSE,
+     dlog |-> <<>>]                  \* calls on the ViewDuration in this step: D = Duration (timer armed), S = ViewStarted, K = ViewSucceeded, T = ViewTimeout
+ClearOutputs(s) == [s EXCEPT !.out = <<>>, !.signed = <<>>, !.commits = <<>>, !.vcs = <<>>, !.miss = FALSE, !.dlog = <<>>]
 Send(s, m) == [s EXCEPT !.out = Append(@, m)]
 
 \* ---- block store ------------------------------------------------------------------------------------------
@@ -197,7 +199,9 @@ AdvanceView(E, s, si) ==
         siOut == [si EXCEPT !.qc = IF r.qc # -2 THEN s2.hqc ELSE si.qc] IN     \* syncInfo.SetQC(HighQC) when a QC was found
     IF r.view < s2.view THEN s2 ELSE
     LET nv == s2.view + 1
-        s3 == [s2 EXCEPT !.view = nv, !.lastTO = 0, !.vcs = Append(@, <<nv, r.timeout>>), !.queue = Append(@, [type |-> "viewchange"])] IN
+        \* stopTimeoutTimer; ViewSucceeded unless the view ended on a timeout; NextView; ViewStarted; startTimeoutTimer (for the new view)
+        s3 == [s2 EXCEPT !.view = nv, !.lastTO = 0, !.vcs = Append(@, <<nv, r.timeout>>), !.queue = Append(@, [type |-> "viewchange"]),
+                         !.timer = nv, !.dlog = @ \o (IF r.timeout THEN <<"S", "D">> ELSE <<"K", "S", "D">>)] IN
     IF LeaderOf(E, nv) = s.id THEN ProposeNew(E, s3, siOut)
     ELSE Send(s3, [type |-> "newview", to |-> LeaderOf(E, nv), si |-> siOut])
 
@@ -224,11 +228,13 @@ OnRemoteTimeout(E, s, ev) ==
               ELSE AdvanceView(E, [s1 EXCEPT !.tbag = {e \in bag : e[2] # ev.view}], cert) IN
     [s2 EXCEPT !.tbag = {e \in @ : e[2] >= curr}]
 OnLocalTimeout(E, s, ev) ==
-    IF s.view # ev.view THEN s
-    ELSE IF s.lastTO = s.view THEN Send(s, [type |-> "timeout", to |-> 0, view |-> s.view, si |-> s.lastTOsi])
+    IF s.view # ev.view THEN s                                                 \* a stale timer event: ignored, nothing is re-armed
+    ELSE IF s.lastTO = s.view                                                  \* startTimeoutTimer comes first on both paths
+         THEN Send([s EXCEPT !.timer = s.view, !.dlog = Append(@, "D")], [type |-> "timeout", to |-> 0, view |-> s.view, si |-> s.lastTOsi])
     ELSE LET si == SI(s.hqc, s.htc)
              sg == IF E.agg THEN <<<<"tview", s.view>>, <<"tmsg", s.view>>>> ELSE <<<<"tview", s.view>>>>     \* the aggregate rule signs the message too
-             s1 == [s EXCEPT !.lastTO = s.view, !.lastTOsi = si, !.signed = @ \o sg, !.lv = Max(@, s.view)]
+             s1 == [s EXCEPT !.lastTO = s.view, !.lastTOsi = si, !.signed = @ \o sg, !.lv = Max(@, s.view),
+                             !.timer = s.view, !.dlog = @ \o <<"D", "T">>]                 \* timer re-armed, then ViewTimeout
              s2 == Send(s1, [type |-> "timeout", to |-> 0, view |-> s.view, si |-> si]) IN
          OnRemoteTimeout(E, s2, [type |-> "timeout", from |-> s.id, view |-> s.view, si |-> si])
 
@@ -238,7 +244,7 @@ Handle(E, s, ev) ==
       [] ev.type = "vote" -> CollectVote(E, s, ev)
       [] ev.type = "newview" -> AdvanceView(E, s, ev.si)
       [] ev.type = "timeout" -> OnRemoteTimeout(E, s, ev)
-      [] ev.type = "localtimeout" -> OnLocalTimeout(E, s, ev)
+      [] ev.type = "localtimeout" -> OnLocalTimeout(E, IF s.timer = ev.view THEN [s EXCEPT !.timer = 0] ELSE s, ev)   \* the one-shot timer that fired is spent
       [] ev.type = "viewchange" -> [s EXCEPT !.queue = @ \o s.dP, !.dP = <<>>]
       [] OTHER -> s
 RECURSIVE Drain(_, _)
@@ -247,5 +253,6 @@ Drain(E, s) == IF s.queue = <<>> THEN [s EXCEPT !.store = @ \cup (E.avail \cap D
 \* one input
 Input(E, s, ev) == Drain(E, [ClearOutputs(s) EXCEPT !.queue = <<ev>>])
 \* Synchronizer.Start: the leader of view 1 proposes
-Start(E, s) == IF s.view = 1 /\ LeaderOf(E, 1) = s.id THEN Drain(E, ProposeNew(E, ClearOutputs(s), SI(s.hqc, s.htc))) ELSE ClearOutputs(s)
+Start(E, s) == LET s0 == [ClearOutputs(s) EXCEPT !.timer = s.view, !.dlog = <<"D">>] IN      \* startTimeoutTimer first
+               IF s.view = 1 /\ LeaderOf(E, 1) = s.id THEN Drain(E, ProposeNew(E, s0, SI(s.hqc, s.htc))) ELSE s0
 =============================================================================
